@@ -226,9 +226,11 @@ void Interpret::interp(ASTNode& n) {
                     if (tr == PTRef_Undef)
                         notify_formatted(true, "assertion returns an unknown sort");
                     else {
-                        assertions.push(tr);
                         try {
                             main_solver->insertFormula(tr);
+                            // record the assertion only once the solver has accepted it: the position in
+                            // `assertions` is the partition index used by get-interpolants
+                            assertions.push(tr);
                             notify_success();
                         } catch (ApiException const & e) {
                             notify_formatted(true, e.what());
